@@ -59,12 +59,12 @@ def plan(tier, seed):
             specs.append(dict(label='%s-%s' % (fam, impl), family=fam,
                               impl=impl, containers=5 if q else 60,
                               all_n=not q, seed=seed, tier=tier,
-                              variant='mon', timeout=900 if q else 3400))
+                              variant='mon', timeout=900 if q else 7200))
     for fam in (['OO'] if q else FAMS):
         specs.append(dict(label='%s-c-asan' % fam, family=fam, impl='c',
                           containers=2 if q else 12, all_n=False,
                           seed=seed + 17, tier=tier, variant='asan',
-                          timeout=1500 if q else 3400))
+                          timeout=1500 if q else 7200))
     return specs
 
 
